@@ -665,22 +665,63 @@ type searchSpec struct {
 // search explores forward; returns a witness if a target atom / exit is
 // reachable without crossing an avoided atom or edge.
 func (f *Flow) search(sp searchSpec) *Witness {
+	// Per-path defer tracking: a deferred call runs at an exit iff its defer
+	// statement executed on that path. yes/maybe are bit sets over f.defers.
 	type item struct {
-		b    *cfg.Block
-		from int
-		prev *item
+		b          *cfg.Block
+		from       int
+		prev       *item
+		yes, maybe uint64
+	}
+	type visitKey struct {
+		b          *cfg.Block
+		yes, maybe uint64
+	}
+	deferIdx := map[ast.Node]int{}
+	for i, d := range f.defers {
+		if i < 64 {
+			deferIdx[d.stmt] = i
+		}
+	}
+	// masks at the start of a block / after an atom, for searches that start mid-function
+	startMasks := func(blk *cfg.Block, idx int) (yes, maybe uint64) {
+		for i, d := range f.defers {
+			if i >= 64 {
+				break
+			}
+			switch {
+			case d.blk == blk:
+				if d.idx < idx {
+					yes |= 1 << uint(i)
+				}
+			case f.mustPass(d.blk, blk):
+				yes |= 1 << uint(i)
+			case f.blockReaches(d.blk, blk):
+				maybe |= 1 << uint(i)
+			}
+		}
+		return
 	}
 	var queue []*item
-	seen := map[*cfg.Block]bool{}
+	seen := map[visitKey]bool{}
 	for _, e := range sp.startEdges {
-		queue = append(queue, &item{b: e.From.Succs[e.Succ], from: 0, prev: &item{b: e.From}})
+		tgt := e.From.Succs[e.Succ]
+		y, m := startMasks(e.From, 1<<30)
+		queue = append(queue, &item{b: tgt, from: 0, prev: &item{b: e.From}, yes: y, maybe: m})
 	}
 	if sp.starts == nil && sp.startEdges == nil {
 		queue = append(queue, &item{b: f.G.Blocks[0], from: 0})
-		seen[f.G.Blocks[0]] = true
+		seen[visitKey{f.G.Blocks[0], 0, 0}] = true
 	} else {
 		for _, a := range sp.starts {
-			queue = append(queue, &item{b: a.Blk, from: a.Idx + 1})
+			if a.Deferred {
+				// starting from an atom that itself runs at an exit: continue with the exit atoms after it
+				y, m := startMasks(a.Blk, 1<<30)
+				queue = append(queue, &item{b: a.Blk, from: a.Idx + 1, yes: y, maybe: m | y})
+				continue
+			}
+			y, m := startMasks(a.Blk, a.Idx+1)
+			queue = append(queue, &item{b: a.Blk, from: a.Idx + 1, yes: y, maybe: m})
 		}
 	}
 	mk := func(it *item, hit *Atom, exit *cfg.Block) *Witness {
@@ -693,10 +734,45 @@ func (f *Flow) search(sp searchSpec) *Witness {
 	for len(queue) > 0 {
 		it := queue[0]
 		queue = queue[1:]
-		atoms := f.blockAtoms(it.b)
+		atoms := f.atoms[it.b]
+		yes, maybe := it.yes, it.maybe
+		isExit := len(it.b.Succs) == 0
+		if isExit && len(f.defers) > 0 {
+			// scan the block first to know which defers executed in it (only matters when from==0 or defers precede)
+			y2, m2 := yes, maybe
+			for i := it.from; i < len(atoms); i++ {
+				if di, ok := deferIdx[atoms[i].N]; ok {
+					y2 |= 1 << uint(di)
+					m2 &^= 1 << uint(di)
+				}
+			}
+			var ex []*Atom
+			for i := len(f.defers) - 1; i >= 0; i-- {
+				if i >= 64 {
+					continue
+				}
+				d := f.defers[i]
+				bit := uint64(1) << uint(i)
+				if y2&bit == 0 && m2&bit == 0 {
+					continue
+				}
+				for _, da := range d.atoms {
+					ex = append(ex, &Atom{N: da.n, Blk: it.b, May: da.fl.may || y2&bit == 0, Seq: da.fl.seq, Lit: d.lit, Deferred: true})
+				}
+			}
+			base := len(atoms)
+			for i, a := range ex {
+				a.Idx = base + i
+			}
+			atoms = append(append([]*Atom(nil), atoms...), ex...)
+		}
 		stopped := false
 		for i := it.from; i < len(atoms); i++ {
 			a := atoms[i]
+			if di, ok := deferIdx[a.N]; ok && !a.Deferred {
+				yes |= 1 << uint(di)
+				maybe &^= 1 << uint(di)
+			}
 			if sp.target != nil && sp.target(a.N) {
 				return mk(it, a, nil)
 			}
@@ -734,7 +810,7 @@ func (f *Flow) search(sp searchSpec) *Witness {
 		if stopped {
 			continue
 		}
-		if len(it.b.Succs) == 0 {
+		if isExit {
 			if it.b.Kind == cfg.KindSelectAfterCase {
 				continue // tail of a select without default: blocks, not an exit
 			}
@@ -747,11 +823,12 @@ func (f *Flow) search(sp searchSpec) *Witness {
 			if sp.avoidEdges[Edge{it.b, i}] {
 				continue
 			}
-			if seen[s] {
+			k := visitKey{s, yes, maybe}
+			if seen[k] {
 				continue
 			}
-			seen[s] = true
-			queue = append(queue, &item{b: s, from: 0, prev: it})
+			seen[k] = true
+			queue = append(queue, &item{b: s, from: 0, prev: it, yes: yes, maybe: maybe})
 		}
 	}
 	return nil
